@@ -27,7 +27,6 @@ import (
 	"github.com/nspcc-dev/neo-go/pkg/crypto/keys"
 	"github.com/nspcc-dev/neo-go/pkg/neorpc/result"
 	"github.com/nspcc-dev/neo-go/pkg/smartcontract/trigger"
-	"github.com/nspcc-dev/neofs-node/pkg/util/verifbridge"
 	clientcore "github.com/nspcc-dev/neofs-node/pkg/core/client"
 	objectcore "github.com/nspcc-dev/neofs-node/pkg/core/object"
 	objectsvc "github.com/nspcc-dev/neofs-node/pkg/services/object"
@@ -36,6 +35,7 @@ import (
 	deletesvc "github.com/nspcc-dev/neofs-node/pkg/services/object/delete"
 	getsvc "github.com/nspcc-dev/neofs-node/pkg/services/object/get"
 	putsvc "github.com/nspcc-dev/neofs-node/pkg/services/object/put"
+	"github.com/nspcc-dev/neofs-node/pkg/util/verifbridge"
 	"github.com/nspcc-dev/neofs-sdk-go/bearer"
 	"github.com/nspcc-dev/neofs-sdk-go/client"
 	apistatus "github.com/nspcc-dev/neofs-sdk-go/client/status"
@@ -115,9 +115,9 @@ type rpcFSChain struct {
 }
 
 func (f rpcFSChain) Get(cid.ID) (container.Container, error) { return container.Container{}, nil }
-func (f rpcFSChain) CurrentEpoch() uint64                     { return 10 }
-func (f rpcFSChain) CurrentBlock() uint32                     { return 100 }
-func (f rpcFSChain) CurrentEpochDuration() uint64             { return 240 }
+func (f rpcFSChain) CurrentEpoch() uint64                    { return 10 }
+func (f rpcFSChain) CurrentBlock() uint32                    { return 100 }
+func (f rpcFSChain) CurrentEpochDuration() uint64            { return 240 }
 func (f rpcFSChain) InvokeContainedScript(*transaction.Transaction, *block.Header, *trigger.Type, *bool) (*result.Invoke, error) {
 	return nil, errors.New("no N3 witnesses in this harness")
 }
@@ -187,7 +187,10 @@ func (a rpcACL) CheckEACL(context.Context, any, cid.ID, oid.ID, aclsvc.RequestIn
 	a.r.chk("eacl")
 	return a.c.eaclErr
 }
-func (a rpcACL) StickyBitCheck(aclsvc.RequestInfo, user.ID) bool { a.r.chk("sticky"); return a.c.stickyOK }
+func (a rpcACL) StickyBitCheck(aclsvc.RequestInfo, user.ID) bool {
+	a.r.chk("sticky")
+	return a.c.stickyOK
+}
 
 type rpcInfo struct {
 	r *rpcRec
@@ -361,7 +364,7 @@ type rpcScenario struct {
 	// chunkFirst: the PUT stream starts with a payload chunk. The handler hands it to the Streamer, which is
 	// ASSUMED (C29's putCont policy) to refuse chunks before a successful Init; this scenario exercises that.
 	chunkFirst bool
-	notRepl  bool
+	notRepl    bool
 }
 
 var errAnyACL = errors.New("denied by a rule")
